@@ -546,7 +546,7 @@ def main():
         reproduced, detail = fn(H, lab, rec["case"])
         print(("REPRODUCED: " if reproduced else "NOT REPRODUCED: ") + detail)
         return 1 if reproduced else 0
-    only = os.environ.get("C15_PARTS", "LTSUOB")   # "A" (ranges after re-association) is experimental: see DESIGN.md 7, S-C15-04
+    only = os.environ.get("C15_PARTS", "LTSUOAB")
 
     def run(name, mk, confirm_fn, classify_fn=None, prefixes=None):
         t0 = time.time()
@@ -585,8 +585,8 @@ def main():
         # ranges after re-association (what type errors on chains point at)
         import c07
         c07.validate(H, 30 if quick else 100)
-        c07.run_reassociation(H, 4 if quick else 5, range_label="A1.re-associated-node-spans-its-operands")
-        H.bounds["re-association ranges"] = "application, * /, + - chains of at most %d operands with parentheses and unary minus: every chain node of the re-associated tree spans its two operands (or keeps the range of the parenthesised expression)" % (4 if quick else 5)
+        c07.run_reassociation(H, 4 if quick else 5, range_label="A1.re-associated-node-covers-its-operands")
+        H.bounds["re-association ranges"] = "application, * /, + - chains of at most %d operands with parentheses and unary minus: the range of every chain node of the re-associated tree covers both of its operands (or is the range of the parenthesised expression)" % (4 if quick else 5)
     if "O" in only:
         # definition-order diagnostics: the excerpt is the definition the message names
         import c13
